@@ -898,13 +898,21 @@ func c06GenMalformed(c *Ctx) {
 			return raw(m)
 		}},
 		{"ts-dup", func(m map[string]interface{}) []byte { return appendTop(raw(m), `"origin_server_ts":5`) }},
+		// parsed as untrusted with a content hash that does not match: the library keeps the REDACTED
+		// event (so join_authorised_via_users_server survives only where the redaction keeps it)
+		{"hash-mismatch", func(m map[string]interface{}) []byte {
+			c06AddHash(m)
+			content(m)["displayname"] = "changed after hashing"
+			return raw(m)
+		}},
+		{"hash-ok", func(m map[string]interface{}) []byte { c06AddHash(m); return raw(m) }},
 	}
 	lookups := []string{"real", "=E", "=N", "=Dother.example"}
 	d := [4]string{"a.example", "b.example", "c.example", "d.example"}
 	for vi, ver := range c06Versions {
 		for ki, k := range c06Kinds {
 			for mi, ml := range mals {
-				if !c.Thorough() && (vi+ki+mi)%4 != 0 && ml.name != "plain" {
+				if !c.Thorough() && (vi+ki+mi)%4 != 0 && ml.name != "plain" && ml.name != "hash-mismatch" {
 					continue
 				}
 				t := k.mk(d)
@@ -926,7 +934,11 @@ func c06GenMalformed(c *Ctx) {
 							}
 							valid = append(valid, B(s))
 						}
-						args := append([][]byte{B("any"), B(ver), ev, B(lk), B("ok")}, valid...)
+						flag := "any"
+						if strings.HasPrefix(ml.name, "hash-") {
+							flag = "any+u"
+						}
+						args := append([][]byte{B(flag), B(ver), ev, B(lk), B("ok")}, valid...)
 						if c.c06Run("C06.verify", ver, args, "C06.verify", "C06.prop.verify", fmt.Sprintf("malformed v=%s kind=%s edit=%s lookup=%s variant=%d", ver, k.name, ml.name, lk, variant)) {
 							c.Count("malformed/" + ml.name)
 						}
